@@ -158,6 +158,9 @@ func (s *mq) Build(w *World) {
 	// faults
 	w.Net.SendFaults = []string{"fail", "acklost", "stall"}
 	w.Net.ConnectFaults = []string{"fail"}
+	// the underlying connection may drop too (so that re-opening a sender has to dial again)
+	w.Net.DisconnectFaults = t.Chance(300)
+	w.Prof.Weights["disconnect"] = 1
 	w.Prof.FaultPm = map[string]int{"send": []int{0, 50, 150, 400}[t.Draw(4)], "connect": []int{0, 0, 150, 400}[t.Draw(4)]}
 	w.Prof.FaultBudget = t.Draw(7)
 	// buggify: a random subset of the internal yield sites is active
